@@ -307,3 +307,50 @@ Definition from_proto_range (li : LineIndex) (range : (N * N) * (N * N)) : res (
 (** whole pipeline on a text (what the observers call) *)
 Definition text_to_position (t : text) (o : N) : res (N * N) := li <- li_new t ;; to_proto_position li o.
 Definition text_from_position (t : text) (l c : N) : res N := li <- li_new t ;; from_proto_position li (l, c).
+
+(* ------------------------------------------------------------------------------------------ *)
+(** * 4. Combinators for the translated source (coq/gen/GenLineIndex.v, translator T-lines)
+
+    tools/translate/t_lineindex.py renders the CURRENT text of line_index.rs and of the position / range /
+    folding_range functions of to_proto.rs and from_proto.rs with the Rust std contracts of part 3 and the
+    control-flow combinators below; TG.Proofs.GenLineIndexEq proves that rendering equal to the model of part 3. *)
+
+(** unsigned subtraction ([a - b], [a -= b]): panics below zero (debug build) *)
+Definition usub (a b : N) : res N := if a <? b then Panic PSubOverflow else Ok (a - b).
+(** u32 / TextSize addition: panics above u32::MAX *)
+Definition uadd32 (a b : N) : res N := to_u32 PSumOverflow (a + b).
+(** [x as u32] *)
+Definition as_u32 (x : N) : N := x mod 4294967296.
+(** [==] on [Option<u8>] / [Option<&u8>] *)
+Definition opt_eqb (a b : option N) : bool :=
+  match a, b with
+  | Some x, Some y => x =? y
+  | None, None => true
+  | _, _ => false
+  end.
+(** [slice.iter().enumerate()] from index [i] *)
+Fixpoint enumerate_from (i : N) (l : list N) : list (N * N) :=
+  match l with [] => [] | x :: r => (i, x) :: enumerate_from (i + 1) r end.
+(** [Iterator<Item = u32>::sum::<u32>()] *)
+Definition sum_u32 (l : list N) : res N := to_u32 PSumOverflow (fold_left N.add l 0).
+(** [TextRange::new] *)
+Definition text_range_new (a b : N) : res (N * N) := if a <=? b then Ok (a, b) else Panic PRangeAssert.
+(** [LineIndex { text: String, line_starts }]: a String is its scalar values together with their UTF-8 encoding *)
+Definition mk_line_index (t : text) (starts : list N) : LineIndex := mkLI t (encode t) starts.
+
+(** [for x in xs { body }] over the mutable state [St]; the body says [Continue] or [Break] *)
+Inductive ctl (St : Type) : Type := Continue (s : St) | Break (s : St).
+Arguments Continue {St} s.
+Arguments Break {St} s.
+Fixpoint for_loop {A St : Type} (xs : list A) (body : A -> St -> res (ctl St)) (s : St) : res St :=
+  match xs with
+  | [] => Ok s
+  | x :: r => c <- body x s ;; match c with Break s' => Ok s' | Continue s' => for_loop r body s' end
+  end.
+(** [while cond { body }] over the mutable state [St]; the fuel is chosen by the translator (initial value of
+    the variable the body decrements, plus one) and [POutOfFuel] is proved unreachable *)
+Fixpoint while_loop {St : Type} (fuel : nat) (cond : St -> bool) (body : St -> res St) (s : St) : res St :=
+  match fuel with
+  | O => Panic POutOfFuel
+  | S f => if cond s then (s' <- body s ;; while_loop f cond body s') else Ok s
+  end.
